@@ -206,6 +206,7 @@ func runCheck(repo, prop, tier string, rest []string) int {
 	if err := e.loadContracts(theoryDir); err != nil {
 		return fail2("cannot read contracts: %v", err)
 	}
+	rebound := e.rebindClosureContracts()
 	e.computeWrittenKeys()
 	e.computeNeedPrivate()
 	e.computeNeedNode()
@@ -215,6 +216,9 @@ func runCheck(repo, prop, tier string, rest []string) int {
 	}
 	c := &checkCtx{e: e, prop: prop, tier: tier, assumed: map[string]bool{}, funcs: map[string]bool{}, extraEv: map[string]interface{}{}, undecidedOK: map[string]string{}, provedLedger: map[string]bool{}}
 
+	for _, r := range rebound {
+		c.assumed[r] = true
+	}
 	// functions under explicit contract for this property
 	var keys []string
 	for k, ctr := range e.ctrs {
@@ -679,4 +683,92 @@ func (c *checkCtx) replacesProved(o *Obligation) bool {
 		}
 	}
 	return false
+}
+
+// rebindClosureContracts: contracts of function literals are keyed by ordinal (F$2$1). When a literal is added or removed
+// in front of them the ordinals shift although nothing about the contracted literal changed. A contract whose key names no
+// function is re-bound to the one literal of the same enclosing top-level function and nesting depth that has no contract of
+// its own and in which every identifier the contract mentions is a parameter, a named result or a captured variable. If there
+// is not exactly one such literal the contract stays unbound (reported as contract/target-missing).
+func (e *Engine) rebindClosureContracts() []string {
+	var notes []string
+	var missing []string
+	for k := range e.ctrs {
+		if _, ok := e.funcs[k]; !ok && strings.Contains(k, "$") && !strings.Contains(k, ".*.") {
+			missing = append(missing, k)
+		}
+	}
+	sort.Strings(missing)
+	for _, k := range missing {
+		ctr := e.ctrs[k]
+		root := k[:strings.Index(k, "$")]
+		depth := strings.Count(k, "$")
+		idents := map[string]bool{}
+		var walk func(x *SExpr)
+		walk = func(x *SExpr) {
+			if x == nil {
+				return
+			}
+			if x.Op == "id" && !strings.HasPrefix(x.Name, "$") {
+				idents[x.Name] = true
+			}
+			for _, a := range x.Args {
+				walk(a)
+			}
+		}
+		for _, cl := range ctr.Requires {
+			walk(cl.E)
+		}
+		for _, cl := range ctr.Ensures {
+			walk(cl.E)
+		}
+		var cands []string
+		for _, ck := range e.sortedFuncKeys() {
+			if !strings.HasPrefix(ck, root+"$") || strings.Count(ck, "$") != depth || e.ctrs[ck] != nil {
+				continue
+			}
+			fn := e.funcs[ck]
+			names := map[string]bool{"result": true, "nil": true, "true": true, "false": true}
+			for _, p := range fn.Params {
+				names[p.Name()] = true
+			}
+			for _, fv := range fn.FreeVars {
+				names[fv.Name()] = true
+			}
+			if res := fn.Signature.Results(); res != nil {
+				for i := 0; i < res.Len(); i++ {
+					names[res.At(i).Name()] = true
+					names[fmt.Sprintf("result%d", i)] = true
+				}
+			}
+			ok := true
+			for id := range idents {
+				if !names[id] && !strings.Contains(id, ".") {
+					if fn.Pkg == nil || fn.Pkg.Pkg.Scope().Lookup(id) == nil {
+						if p := fn.Parent(); p != nil {
+							top := p
+							for top.Parent() != nil {
+								top = top.Parent()
+							}
+							if top.Pkg != nil && top.Pkg.Pkg.Scope().Lookup(id) != nil {
+								continue
+							}
+						}
+						ok = false
+					}
+				}
+			}
+			if ok {
+				cands = append(cands, ck)
+			}
+		}
+		if len(cands) == 1 {
+			cp := *ctr
+			cp.Key = cands[0]
+			e.ctrs[cands[0]] = &cp
+			delete(e.ctrs, k)
+			notes = append(notes, "contract written for "+k+" is applied to "+cands[0]+": the ordinal of the function literal shifted, it is the only literal of that function and depth that fits the contract's names")
+		}
+	}
+	return notes
 }
